@@ -184,6 +184,22 @@ func TestC04(t *testing.T) {
 			return map[string]any{"scenario": "Put parked between owner lookup and KV barrier while the owner leaves gracefully"}
 		}, "scenario:op-accepted-just-before-owner-leaves")
 	}
+	// scenario tier: the k-th transfer of a large leave hand-over fails; reads in the retry pause
+	for k := 1; k <= 3; k++ {
+		p, fired := leaveHandOverFailsAtKthImport(k)
+		switch {
+		case p != "" && len(p) > 13 && p[:13] == "precondition:":
+			rec.Inconclusive("scenario-precondition")
+			t.Logf("hand-over-fails scenario (k=%d): %s", k, p)
+		case p != "":
+			rec.Fail(t, "read-succeeds-with-nothing-after-failed-hand-over", map[string]any{"schedule": fmt.Sprintf("ring {1<<44, 9<<44, 13<<44}; 9<<44 owns 400 keys and leaves; Import call #%d from 9<<44 to 13<<44 fails before delivery; every key is read through 1<<44 before the leave is retried", k), "problem": p}, "%s", p)
+		default:
+			kk, f := k, fired
+			rec.Case(f, fmt.Sprintf("scenario:hand-over-fails-at-import-%d", kk), func() any {
+				return map[string]any{"scenario": "k-th Import of a 400-key leave hand-over fails; all keys read in the retry pause and after the leave", "k": kk, "fault_fired": f}
+			}, "scenario:leave-hand-over-fails-midway", fmt.Sprintf("fault-fired:%v", f))
+		}
+	}
 	// regression tier: the minimal schedule of a non-retryable failure found by the thorough tier
 	if p := joiningNodeKVWindow(); p != "" {
 		if len(p) > 13 && p[:13] == "precondition:" {
